@@ -95,6 +95,30 @@ def gen_ops(rng, target, nops, allow_fail=True):
     return tuple(ops)
 
 
+def damage_block_data(path):
+    """Flip one byte of the share's block data (offset tables typed from the layout comments of mutable/layout.py):
+    prefix and signature stay valid, so a servermap update still counts the share, but its block fails the hash check."""
+    import struct
+    from vf.checks._mutmon import DATA_OFFSET
+    with open(path, "r+b") as f:
+        f.seek(DATA_OFFSET)
+        head = f.read(123)
+        if not head:
+            return False
+        if head[0] == 0:                      # SDMF: >BQ32s16s BBQQ LLLLQQ, share_data is the 4th L
+            (off,) = struct.unpack(">L", head[75 + 12:75 + 16])
+        else:                                 # MDMF: offsets at 59 (8 x Q), share_data is the 6th; skip the 16-byte salt
+            (off,) = struct.unpack(">Q", head[59 + 40:59 + 48])
+            off += 16
+        f.seek(DATA_OFFSET + off)
+        b = f.read(1)
+        if not b:
+            return False
+        f.seek(DATA_OFFSET + off)
+        f.write(bytes([b[0] ^ 0xFF]))
+    return True
+
+
 def describe_cfg(cfg):
     return {k: v for k, v in cfg.items() if k != "key"}
 
@@ -174,6 +198,21 @@ def run_case(ck, cfg, mode, chooser=None, sched_seed=0, stats=None):
                                      "create_node_from_uri(cap, deep_immutable=True) handed out the cached mutable node",
                                      dict(cfg=desc))
         del created
+        damaged = False
+        if cfg.get("damage"):
+            # damage the block data of every share held by the servers a MODE_READ map update asks first (2k in
+            # permuted order): download_best_version then fails its first attempt with NotEnoughSharesError and
+            # has to go through its MODE_WRITE fallback, provided k intact shares remain elsewhere
+            first = [s_.vserver for s_ in c.get_storage_broker().get_servers_for_psi(si)][:2 * k]
+            first_names = set(vs_.name for vs_ in first)
+            intact = set(sh for (vs_, sh, _) in g.find_shares(si) if vs_.name not in first_names)
+            if len(intact) >= k and first:
+                for vs_ in first:
+                    for p in vs_.shares_of(si).values():
+                        damaged = damage_block_data(p) or damaged
+            if not damaged:
+                ck.observe("damage-not-applicable")
+        out["damaged"] = damaged
         mon = M.WireMon(g, si)
         mon.nsent = 0
         _orig_on_send = mon.on_send
@@ -316,14 +355,16 @@ def run_case(ck, cfg, mode, chooser=None, sched_seed=0, stats=None):
             out["schedule"] = g.sched.schedule_hash()
             out["witness"] = ([p[1] for p in chooser.points] if hasattr(chooser, "points")
                               else dict(sched_seed=sched_seed, profile=cfg.get("profile")))
-            evaluate(ck, cfg, g, c, cap, mon, recorder, setup_records, ops, done_order, initial, existing, out, mode)
+            evaluate(ck, cfg, g, c, cap, mon, recorder, setup_records, ops, done_order, initial, existing, out, mode,
+                     damaged)
         return out
     finally:
         g.pre_delivery = g.post_delivery = None
         g.close()
 
 
-def evaluate(ck, cfg, g, c, cap, mon, recorder, setup_records, ops, done_order, initial, existing, out, mode):
+def evaluate(ck, cfg, g, c, cap, mon, recorder, setup_records, ops, done_order, initial, existing, out, mode,
+             damaged=False):
     from allmydata.mutable.common import MODE_CHECK
     desc = describe_cfg(cfg)
     target = cfg["target"]
@@ -410,6 +451,14 @@ def evaluate(ck, cfg, g, c, cap, mon, recorder, setup_records, ops, done_order, 
                     outside += 1
             if outside:
                 ck.observe("storage-requests-outside-serialized-bodies", outside)
+                ck.mon("storage-traffic-inside-serialized-section")
+                if all(op["serialized"] for op in ops):
+                    ck.violation("storage-traffic-outside-the-serialized-section",
+                                 "%d storage request(s) for the file were sent while no serialized body of the node was "
+                                 "running (part of an operation runs outside the node's queue and interleaves with the "
+                                 "next operation)" % outside, wit)
+            else:
+                ck.mon("storage-traffic-inside-serialized-section")
             if len(set(r["node"] for r in recs)) > 1:
                 ck.observe("bodies-ran-on-several-node-objects")
     else:
@@ -429,6 +478,9 @@ def evaluate(ck, cfg, g, c, cap, mon, recorder, setup_records, ops, done_order, 
             exp_ok, exp_val = True, None
             if kind == "download":
                 exp_val = content
+                if damaged and publishes == 0 and oc == "ok":
+                    ck.hit("download-needed-the-mode-write-fallback" if second_survey_seen(g, op)
+                           else "damaged-read-without-second-survey")
             elif kind == "overwrite":
                 content, seq, publishes = op["content"], seq + 1, publishes + 1
             elif kind == "upload":
@@ -472,6 +524,10 @@ def evaluate(ck, cfg, g, c, cap, mon, recorder, setup_records, ops, done_order, 
                 exp_ok = False
             elif kind == "list":
                 exp_val = ("names", set(names), set(optional))
+                if damaged and oc == "ok" and not any(
+                        o["kind"] in ("set_node", "set_uri", "add_file", "add_file_big", "delete") for o in ops[:op["j"]]):
+                    ck.hit("download-needed-the-mode-write-fallback" if second_survey_seen(g, op)
+                           else "damaged-read-without-second-survey")
             judge(ck, op, oc, res, exp_ok, exp_val, wit, failed_before)
         rn = c.create_node_from_uri(cap)
         st, listing = g.wait(rn.list())
@@ -489,6 +545,19 @@ def evaluate(ck, cfg, g, c, cap, mon, recorder, setup_records, ops, done_order, 
                 ck.violation("directory-update-lost" if lost else "final-contents-differ-from-serial-execution",
                              "final listing %r; sequential execution gives %r (lost: %r)" % (sorted(got), sorted(want), lost),
                              wit)
+
+
+def second_survey_seen(g, op):
+    """Wire evidence that a read went through its fallback: between its request and its completion some server was
+    asked for all shares of the file a second time (the first survey's version could not be retrieved)."""
+    per_server = {}
+    for rec in g.calls:
+        t = rec.get("vf_tick")
+        if t is None or rec["method"] != "slot_readv" or rec["args"][1]:
+            continue
+        if op["issued"] <= t <= op.get("done", 1 << 60):
+            per_server[rec["server"]] = per_server.get(rec["server"], 0) + 1
+    return any(v >= 2 for v in per_server.values())
 
 
 def judge(ck, op, oc, res, exp_ok, exp_val, wit, failed_before):
@@ -549,6 +618,14 @@ def dfs_configs():
             for ops in dir_sets:
                 out.append(dict(target="dir", ops=ops, fmt=fmt, k=k, n=n, nservers=3, profile="free", ev_first=True,
                                 how="held", key="dfs/dir/%s/%d/%d/%s" % (fmt, k, n, "+".join(ops))))
+    for fmt in ("SDMF", "MDMF"):
+        for ops in (("download", "overwrite"), ("download", "modify"), ("download", "download"), ("download", "servermap"),
+                    ("download", "overwrite", "download")):
+            out.append(dict(target="file", ops=ops, fmt=fmt, k=1, n=3, nservers=3, profile="free", ev_first=True,
+                            how="held", damage=True, key="dfs/file-damaged/%s/1/3/%s" % (fmt, "+".join(ops))))
+        for ops in (("list", "set_node"), ("list", "delete", "list")):
+            out.append(dict(target="dir", ops=ops, fmt=fmt, k=1, n=3, nservers=3, profile="free", ev_first=True,
+                            how="held", damage=True, key="dfs/dir-damaged/%s/1/3/%s" % (fmt, "+".join(ops))))
     return out
 
 
@@ -563,7 +640,15 @@ def random_cfg(rng):
                profile=rng.choice(["free", "per-server-fifo", "fifo"]), ev_first=rng.random() < .5,
                how=("held" if "upload" in ops else rng.choice(["held", "held", "temp"])), keyidx=rng.randrange(4),
                identity_probe=rng.random() < .25)
-    if rng.random() < .3:
+    if rng.random() < .35:
+        # shares on the servers a read asks first are damaged: reads need the MODE_WRITE fallback
+        cfg["k"] = k = rng.choice([1, 1, 2])
+        cfg["nservers"] = nservers = rng.choice([2 * k + 1, 2 * k + 2, 2 * k + 3])
+        cfg["n"] = n = rng.randint(nservers, nservers + 2)
+        cfg["damage"] = True
+        lead = "download" if target == "file" else "list"
+        cfg["ops"] = ops = (lead,) + tuple(o for o in ops[1:])
+    elif rng.random() < .3:
         meths = ["slot_readv", "slot_testv_and_readv_and_writev"]
         cfg["faults"] = tuple((rng.randrange(nservers), rng.choice(meths), rng.randint(1, 6))
                               for _ in range(rng.randint(1, 2 * nservers)))
@@ -641,7 +726,8 @@ def _run(ck):
     cfgs = dfs_configs()
     if ck.tier == "quick":
         r = ck.rng("dfs-pick")
-        picked = r.sample(cfgs, 6)
+        dmg = [c for c in cfgs if c.get("damage")]
+        picked = r.sample(dmg, 2) + r.sample([c for c in cfgs if not c.get("damage")], 4)
         per_cfg_runs, share = 120, 0.5
     else:
         picked = [c for i, c in enumerate(cfgs) if ck.mine(i)]
@@ -692,7 +778,7 @@ def _run(ck):
                        "result-equals-serial-model", "final-state-equals-serial-model", "every-operation-completes",
                        "lookup-returns-requested-cap")
     ck.require_reach("op-failed", "op-succeeded", "operation-judged-after-failed-one", "concurrent-directory-additions",
-                     "case-with-server-faults")
+                     "case-with-server-faults", "download-needed-the-mode-write-fallback")
     ck.assumptions.append("DFS and ev_first cases run client-local steps before message deliveries; the other random "
                           "cases interleave them freely")
     ck.assumptions.append("exhaustive=true refers only to the DFS configurations counted in dfs_configs_exhausted")
